@@ -34,6 +34,45 @@ def boundP : P (Bound Float) := fun ts => do
 def boundEqF (a b : Bound Float) : Bool :=
   a.lo.x == b.lo.x && a.lo.y == b.lo.y && a.hi.x == b.hi.x && a.hi.y == b.hi.y
 
+/-! ### the Float twin with Go's `math.Min` / `math.Max`
+
+`Bound.Extend` calls `math.Min` / `math.Max`.  Lean's `Min Float` / `Max Float` instances
+(`if a ≤ b then a else b`) give the same VALUE on numbers, but not on NaN (Go: NaN as soon as one
+argument is NaN, unless the other is the infinity that wins) and not the same zero on (+0, -0).  The
+twin below is instantiated with Go's functions, so that inputs with NaN coordinates — which are
+outside the order-theoretic clauses — are still compared with the code, coordinate for coordinate. -/
+
+def negInfF : Float := Float.ofBits 0xfff0000000000000
+def posInfF : Float := Float.ofBits 0x7ff0000000000000
+def nanF : Float := Float.ofBits 0x7ff8000000000001
+def signBit (x : Float) : Bool := x.toBits >>> 63 == 1
+
+/-- `math.Min` -/
+def goMin (x y : Float) : Float :=
+  if x == negInfF || y == negInfF then negInfF
+  else if x.isNaN || y.isNaN then nanF
+  else if x == 0 && x == y then (if signBit x then x else y)
+  else if x < y then x else y
+
+/-- `math.Max` -/
+def goMax (x y : Float) : Float :=
+  if x == posInfF || y == posInfF then posInfF
+  else if x.isNaN || y.isNaN then nanF
+  else if x == 0 && x == y then (if signBit x then y else x)
+  else if x > y then x else y
+
+local instance (priority := high) goMinInst : Min Float := ⟨goMin⟩
+local instance (priority := high) goMaxInst : Max Float := ⟨goMax⟩
+
+/-- Go's `==` on numbers; two NaNs count as the same outcome (payloads are not compared) -/
+def sameF (a b : Float) : Bool := a == b || (a.isNaN && b.isNaN)
+
+/-- agreement of two computed boxes: `==` on every coordinate, NaN against NaN -/
+def boundSameF (a b : Bound Float) : Bool :=
+  sameF a.lo.x b.lo.x && sameF a.lo.y b.lo.y && sameF a.hi.x b.hi.x && sameF a.hi.y b.hi.y
+
+def boundHasNaN (b : Bound Float) : Bool := b.lo.x.isNaN || b.lo.y.isNaN || b.hi.x.isNaN || b.hi.y.isNaN
+
 /-- exact tight box of a vertex list, `none` when there are no vertices -/
 def tightBox (vs : List (Pt Float)) : Option (Bound Float) :=
   match vs with
@@ -215,12 +254,18 @@ def handleGeom (inp out : Toks) : String :=
         let okClone := showN cl == showN mclone
         let okBound := match mb, implB with
           | none, none => bt == ["nobound"]
-          | some b, some b' => boundEqF b b'
+          | some b, some b' => boundSameF b b'
           | _, _ => false
         let agree := okClone && eq == meq && okBound
         let fin (s : String) : String := if s.startsWith "propfail" || agree then s else "diff " ++ model
         -- executable property on the implementation's outcome (a property failure outranks a mere disagreement)
         fin <|
+        -- NaN coordinates are outside the order (and `==` is not reflexive on them): the clauses about
+        -- equality and the box are not judged; the clone (bit for bit), Equal's answer and the box are
+        -- compared with the Float twin (`agree`), memory independence is judged as everywhere
+        if (coordsN vF).any Float.isNaN then
+          (if indep != "1" then "propfail clone-shares-memory" else
+           match v with | .collection _ => "ok nan-twin-coll" | _ => "ok nan-twin") else
         if eq != "1" then "propfail clone-not-equal" else
         if !(sameStructN vF (toFN cl)) then "propfail clone-differs" else
         if indep != "1" then "propfail clone-shares-memory" else
@@ -233,7 +278,10 @@ def handleGeom (inp out : Toks) : String :=
                      else if isTypedNilTop v then "ok nilslice" else s!"ok empty{nm}"
            | some t => if b.isEmpty then "propfail bound-empty-iff"
                        else if !boundEqF b t then "propfail bound-tight" else
-                       (match g with | .collection _ => s!"ok coll{nm}" | .point _ => "ok triv-point" | _ => "ok geom"))
+                       let cs := coordsN vF
+                       let x := (if cs.any Float.isInf then "-inf" else "") ++
+                         (if cs.any (fun c => c == 0 && signBit c) then "-negzero" else "")
+                       (match g with | .collection _ => s!"ok coll{nm}{x}" | .point _ => s!"ok triv-point{x}" | _ => s!"ok geom{x}"))
         | none, none => "ok triv-nil"
         | _, _ => "bad output"
       | _ => "bad output"
@@ -253,10 +301,16 @@ def handlePair (inp out : Toks) : String :=
     let fin (s : String) : String := if s.startsWith "propfail" || agree then s else "diff " ++ m
     fin <|
     let e := out.head! == "1"
+    -- NaN coordinates: correspondence with the twin only (`agree`)
+    if (coordsN g).any Float.isNaN || (coordsN h).any Float.isNaN then
+      (if e then "ok nan-twin-equal" else "ok nan-twin-unequal") else
     if out.head! != out.getLast! then "propfail equal-symmetric" else
     if e != sameStructN g h then "propfail equal-structural" else
     let nm := if hasNilMember g || hasNilMember h then "-nilmember" else ""
-    if e then s!"ok equal{nm}" else s!"ok unequal{nm}"
+    -- equal as values but not bit for bit: the sign of a zero
+    let rep := if e && (coordsN g).map Float.toBits != (coordsN h).map Float.toBits then "-zerosign" else ""
+    let x := if (coordsN g).any Float.isInf || (coordsN h).any Float.isInf then "-inf" else ""
+    if e then s!"ok equal{nm}{rep}{x}" else s!"ok unequal{nm}{x}"
 
 /-- `bounds b1 b2 b3 p => u12 u21 u12_3 u1_23 ext1p c1p i12 i21 u11` -/
 def handleBounds (inp out : Toks) : String :=
@@ -278,12 +332,15 @@ def handleBounds (inp out : Toks) : String :=
   | none => if out == ["panic"] then "propfail panic" else "bad bounds"
   | some (b1, b2, b3, p, u12, u21, u123, u1_23, e1p, c1p, i12, i21, u11) =>
     -- correspondence with the model
-    let ok := boundEqF (b1.union b2) u12 && boundEqF (b2.union b1) u21 &&
-      boundEqF ((b1.union b2).union b3) u123 && boundEqF (b1.union (b2.union b3)) u1_23 &&
-      boundEqF (b1.extend p) e1p && b1.contains p == c1p && b1.intersects b2 == i12 && b2.intersects b1 == i21 &&
-      boundEqF (b1.union b1) u11
+    let ok := boundSameF (b1.union b2) u12 && boundSameF (b2.union b1) u21 &&
+      boundSameF ((b1.union b2).union b3) u123 && boundSameF (b1.union (b2.union b3)) u1_23 &&
+      boundSameF (b1.extend p) e1p && b1.contains p == c1p && b1.intersects b2 == i12 && b2.intersects b1 == i21 &&
+      boundSameF (b1.union b1) u11
     let fin (s : String) : String := if s.startsWith "propfail" || ok then s else "diff " ++ showBoundF (b1.union b2) ++ " …"
     fin <|
+    -- NaN coordinates are outside the order: the lattice laws are not judged, the nine answers are
+    -- compared with the Float twin (`ok`)
+    if boundHasNaN b1 || boundHasNaN b2 || boundHasNaN b3 || p.x.isNaN || p.y.isNaN then "ok nan-twin-bounds" else
     -- lattice laws on the implementation's outcome (∅ is the identity; empties compare as empty)
     let same (a b : Bound Float) : Bool := (a.isEmpty && b.isEmpty) || boundEqF a b
     let ne (b : Bound Float) : Bool := !b.isEmpty
@@ -305,7 +362,9 @@ def handleBounds (inp out : Toks) : String :=
     if ne b1 && ne b2 then
       let t := tightBox [b1.lo, b1.hi, b2.lo, b2.hi]
       (match t with
-       | some t => if !boundEqF t u12 then "propfail union-least" else (if i12 then "ok meet" else "ok apart")
+       | some t =>
+         let x := if [b1.lo.x, b1.lo.y, b1.hi.x, b1.hi.y, b2.lo.x, b2.lo.y, b2.hi.x, b2.hi.y, p.x, p.y].any Float.isInf then "-inf" else ""
+         if !boundEqF t u12 then "propfail union-least" else (if i12 then s!"ok meet{x}" else s!"ok apart{x}")
        | none => "ok")
     else "ok with-empty"
 
